@@ -15,7 +15,7 @@ def string_is_float(sequence: Sequence, state: dict) -> bool:
     try:
         coerced = list(string_to_float(sequence, state))
         return no_leading_zeros(sequence, coerced)
-    except ValueError:
+    except (ValueError, TypeError):
         return False
 
 
